@@ -29,6 +29,7 @@ Req_c02 ==
                             h \in { <<>>, <<"host: h.example", "cookie: a=1; b=2">>, <<"x-forwarded-for: 9.9.9.9", "accept: */*">> },
                             c \in {"127.0.0.1", "127.0.0.9"} }
   \cup { R(m, "/api/post", "", <<"content-length: 3", "content-type: text/plain">>, "616263", "127.0.0.1") : m \in {"POST", "PUT"} }
+Req_quick == { r \in Req_c02 : r.m \in {"GET", "POST"} /\ r.client = "127.0.0.1" }
 Routes_one == {"/api/*"}
 Routes_all == {"/api/*", "/api*", "/*", "*", "/api/x", "/a*/x"}
 
